@@ -91,6 +91,14 @@ func init() {
 		"(*sync.RWMutex).RLock":   noop,
 		"(*sync.RWMutex).RUnlock": noop,
 		"(*sync.Once).Do":         onceDo,
+		"(*sync.Map).Load":          syncMapLoad,
+		"(*sync.Map).Store":         syncMapStore,
+		"(*sync.Map).LoadOrStore":   syncMapLoadOrStore,
+		"(*sync.Map).LoadAndDelete": syncMapLoadAndDelete,
+		"(*sync.Map).Delete":        syncMapDelete,
+		"(*sync.Map).Swap":          syncMapSwap,
+		"(*sync.Map).Range":         syncMapRange,
+		"(*sync.Map).Clear":         syncMapClear,
 		"reflect.DeepEqual":       libDeepEqual,
 		"math.IsNaN":              mathIsNaN,
 		"math.IsInf":              mathIsInf,
@@ -601,6 +609,90 @@ func onceDo(i *interpreter, fr *frame, a []value) (value, bool) {
 	}
 	i.onces[p] = true
 	call(i, fr, token.NoPos, a[1], nil)
+	return nil, true
+}
+
+// sync.Map is modelled as an insertion-ordered map with interface keys,
+// attached to the address of the sync.Map value (single goroutine: no races).
+func (i *interpreter) syncMap(p value) *omap {
+	k := p.(*value)
+	if i.syncMaps == nil {
+		i.syncMaps = map[*value]*omap{}
+	}
+	m := i.syncMaps[k]
+	if m == nil {
+		m = &omap{keyType: tEmptyIface, idx: map[value]int{}}
+		i.syncMaps[k] = m
+	}
+	return m
+}
+
+func syncMapLoad(i *interpreter, fr *frame, a []value) (value, bool) {
+	if v, ok := i.syncMap(a[0]).lookup(i, a[1]); ok {
+		return tuple{v, true}, true
+	}
+	return tuple{iface{}, false}, true
+}
+
+func syncMapStore(i *interpreter, fr *frame, a []value) (value, bool) {
+	i.syncMap(a[0]).insert(i, a[1], a[2])
+	return nil, true
+}
+
+func syncMapLoadOrStore(i *interpreter, fr *frame, a []value) (value, bool) {
+	m := i.syncMap(a[0])
+	if v, ok := m.lookup(i, a[1]); ok {
+		return tuple{v, true}, true
+	}
+	m.insert(i, a[1], a[2])
+	return tuple{a[2], false}, true
+}
+
+func syncMapLoadAndDelete(i *interpreter, fr *frame, a []value) (value, bool) {
+	m := i.syncMap(a[0])
+	if v, ok := m.lookup(i, a[1]); ok {
+		m.delete(i, a[1])
+		return tuple{v, true}, true
+	}
+	return tuple{iface{}, false}, true
+}
+
+func syncMapDelete(i *interpreter, fr *frame, a []value) (value, bool) {
+	i.syncMap(a[0]).delete(i, a[1])
+	return nil, true
+}
+
+func syncMapSwap(i *interpreter, fr *frame, a []value) (value, bool) {
+	m := i.syncMap(a[0])
+	v, ok := m.lookup(i, a[1])
+	m.insert(i, a[1], a[2])
+	if !ok {
+		v = iface{}
+	}
+	return tuple{v, ok}, true
+}
+
+func syncMapRange(i *interpreter, fr *frame, a []value) (value, bool) {
+	m := i.syncMap(a[0])
+	keys := append([]value{}, m.keys...)
+	vals := append([]value{}, m.vals...)
+	for k := range keys {
+		if m.find(i, keys[k]) < 0 {
+			continue
+		}
+		r := call(i, fr, token.NoPos, a[1], []value{keys[k], vals[k]})
+		if b, ok := r.(bool); ok && !b {
+			break
+		}
+		if sb, ok := r.(symBool); ok && !i.decide(sb.t) {
+			break
+		}
+	}
+	return nil, true
+}
+
+func syncMapClear(i *interpreter, fr *frame, a []value) (value, bool) {
+	delete(i.syncMaps, a[0].(*value))
 	return nil, true
 }
 
